@@ -11,6 +11,8 @@ E3: case expressions and ColExpr.map.
 
 from __future__ import annotations
 
+import os
+
 import itertools
 
 import z3
@@ -191,6 +193,72 @@ def make_run(opname, op, dts, kinds, backend):
                     r = {"reproduced": False, "text": "the documented value involves uninterpreted functions (order / rounding / transcendental); no native oracle. " + r["text"]}
                 out.replay = r
         return out
+
+    return run
+
+
+# ---------------------------------------------------------------------------------
+# LIB: conformance of SPEC (and thereby of the library models the proofs rest on) with the real engines on sampled rows
+
+SAMPLES = {
+    "Int64": [0, 1, -1, 2, 7, -13, 100], "Float64": [0.0, 1.5, -2.25, 3.0, 100.5], "Bool": [True, False], "String(None)": ["", "a", "ab", "b%_", "Zz"],
+}
+
+
+def make_lib(opname, op, dts, kinds, backend, seed):
+    def run(carve):
+        import random
+
+        plmodel.reset_state()
+        args, nvs, cols, wit = build_args(dts, kinds)
+        spec_nv = optable.SPEC[opname](*nvs)
+        if _uses_uninterpreted(spec_nv.val) or _uses_uninterpreted(spec_nv.null):
+            return Outcome("discharged", goal="(the documented value involves uninterpreted functions: no native oracle)", paths=1, queries=1, backend="evaluation")
+        pre = _value_pre(opname, nvs, spec_nv) + N.domain_facts()
+        if "whole" in carve:
+            return Outcome("discharged", detail="carved out entirely by a known finding", goal="(excluded by known finding)", paths=1, queries=1)
+        if "null_input" in carve:
+            pre.append(z3.Not(nvs[0].null))
+        rnd = random.Random(f"{seed}/{opname}/{dts}/{kinds}")
+        rep = make_replayer(opname, op, dts, kinds, backend)
+        n, bad = 0, []
+        for _ in range(14):
+            s = z3.Solver()
+            s.set("timeout", 5000)
+            s.add(*pre)
+            model_in = {}
+            ok = True
+            for i, (dt, k) in enumerate(zip(dts, kinds)):
+                vals = SAMPLES.get(str(dt))
+                if vals is None:
+                    ok = False
+                    break
+                if k == "col":
+                    is_null = rnd.random() < 0.25
+                    v = rnd.choice(vals)
+                    s.add(nvs[i].null == z3.BoolVal(is_null))
+                    if not is_null:
+                        s.add(nvs[i].val == N.const(v, nvs[i].sort).val)
+                    model_in[f"c{i}_null"], model_in[f"c{i}_val"] = is_null, v
+                elif k == "lit":
+                    v = rnd.choice(vals)
+                    s.add(nvs[i].val == N.const(v, nvs[i].sort).val)
+                    model_in[f"l{i}"] = v
+            if not ok:
+                break
+            if s.check() != z3.sat:
+                continue  # the sampled row violates a precondition (division by zero, domain, overflow)
+            m = s.model()
+            en = z3.is_true(m.eval(spec_nv.null, model_completion=True))
+            model_in["expected_null"] = en
+            model_in["expected_val"] = None if en else core.model_value(m, spec_nv.val)
+            n += 1
+            r = rep(model_in)
+            if r["reproduced"]:
+                bad.append(r["text"])
+        from .c13 import _enum_outcome
+
+        return _enum_outcome(f"SPEC[{opname}] agrees with the real {backend} engine on sampled rows ({', '.join(f'{k}:{d}' for k, d in zip(kinds, dts))})", n, bad, allow_empty=True)
 
     return run
 
@@ -377,6 +445,18 @@ def obligations(tier):
                         tags=("cross_backend",),
                     )
                 )
+                if all(str(d) in SAMPLES for d in dts) and "none" not in kinds:
+                    obs.append(
+                        Obligation(
+                            oid.replace("/E1/", "/LIB/"),
+                            "LIB",
+                            f"{opname} on {backend}: SPEC evaluated on sampled rows equals what the real engine returns (conformance of the specification / library models)",
+                            make_lib(opname, op, dts, kinds, backend, int(os.environ.get("VERIF_SEED", "0") or 0)),
+                            functions=fns,
+                            bounded="14 sampled rows (values from small per-type pools, nulls with probability 1/4) per operator x signature x backend; native execution",
+                            carveouts={"null_input": "exclude a null first operand", "whole": "whole obligation"},
+                        )
+                    )
     from pydiverse.common import Float64, Int64, String
 
     case_fns = {
